@@ -86,13 +86,14 @@ def gen_description(rng):
     for k, (a, b) in enumerate(links):
         if rng.random() < 0.5:
             a, b = b, a
-        row = {'a': a, 'z': b, 'east': {'distance': round(rng.uniform(20, 120), 3),
+        row = {'a': a, 'z': b, 'east': {'distance': rng.choice([round(rng.uniform(20, 120), 3), rng.randint(20, 120)]),
                                         'fiber': rng.choice(['SSMF', 'NZDF', 'LOF']),
                                         'lineic': rng.choice([0.2, 0.21, 0.22, 0.19]),
                                         'con_in': rng.choice([None, 0.5, 0.3, 0]), 'con_out': rng.choice([None, 0.5, 0.4, 0]),
                                         'pmd': rng.choice([None, None, 0.04, 0.1]), 'cable': f'F{k:03d}'}, 'west': {}}
         if rng.random() < 0.5:
-            row['west'] = {'distance': round(rng.uniform(20, 120), 3), 'fiber': rng.choice(['SSMF', 'NZDF']),
+            row['west'] = {'distance': rng.choice([round(rng.uniform(20, 120), 3), rng.randint(20, 120)]),
+                           'fiber': rng.choice(['SSMF', 'NZDF']),
                            'lineic': rng.choice([0.2, 0.23, 0.25]), 'con_in': rng.choice([None, 0.2, 0]),
                            'con_out': rng.choice([None, 0.6, 0]), 'pmd': rng.choice([None, 0.08, 0]),
                            'cable': f'G{k:03d}'}
@@ -132,7 +133,7 @@ def eqpt_row(rng, a, z, allow_fused):
             s['type'] = 'fused'
         if s.get('type') != 'fused':
             if rng.random() < 0.5:
-                s['gain'] = rng.choice([15.0, 18.5, 20, 22.0])
+                s['gain'] = rng.choice([15.0, 18.5, 20, 22.0, 17])
             if rng.random() < 0.4:
                 s['dp'] = rng.choice([0, 1.0, -1.0, 2.5])
             if rng.random() < 0.3:
